@@ -104,6 +104,9 @@ def generate(ck):
                 "alpha_column": bool(i % 3 == 1),
             }
         )
+    # the same well booked in a unit a million times larger (Bcf per day instead of Mcf): daily volumes of 1e-9
+    # are production all the same, and every such day has a pressure
+    descs.append(dict(descs[0], M=3e-6, rows=90, noise=0.0, n_zero=3, n_nan=2, filter=True, window=None, n_iter=4, n_blank_gas=0, p_i_at=None, alpha_column=False, seed=int(descs[0]["seed"]) // 2 * 2))
     return descs
 
 
